@@ -310,3 +310,57 @@ func RefSlot(key []byte) int {
 	}
 	return int(crc % 16384)
 }
+
+// StrictCommand checks that raw is exactly one canonical RESP multibulk command: "*<n>\r\n" followed by n bulks
+// "$<len>\r\n<len bytes>\r\n" with canonical decimal numbers, and nothing else. This is stricter than redis-server's
+// reader, which skips the two bytes after a bulk payload without looking at them; it is what "well-formed" means for the
+// commands the proxy itself generates (C06).
+func StrictCommand(raw []byte) error {
+	num := func(at int) (int, int, error) { // returns value, index after CRLF
+		i := at
+		for i < len(raw) && raw[i] >= '0' && raw[i] <= '9' {
+			i++
+		}
+		if i == at || (raw[at] == '0' && i-at > 1) {
+			return 0, 0, fmt.Errorf("non-canonical number at byte %d", at)
+		}
+		if i+1 >= len(raw) || raw[i] != '\r' || raw[i+1] != '\n' {
+			return 0, 0, fmt.Errorf("number at byte %d is not followed by CRLF", at)
+		}
+		v, err := strconv.Atoi(string(raw[at:i]))
+		if err != nil {
+			return 0, 0, err
+		}
+		return v, i + 2, nil
+	}
+	if len(raw) == 0 || raw[0] != '*' {
+		return fmt.Errorf("does not start with '*'")
+	}
+	n, pos, err := num(1)
+	if err != nil {
+		return err
+	}
+	if n < 1 {
+		return fmt.Errorf("argument count %d", n)
+	}
+	for a := 0; a < n; a++ {
+		if pos >= len(raw) || raw[pos] != '$' {
+			return fmt.Errorf("argument %d: '$' expected at byte %d", a, pos)
+		}
+		l, p2, err := num(pos + 1)
+		if err != nil {
+			return fmt.Errorf("argument %d: %v", a, err)
+		}
+		if p2+l+2 > len(raw) {
+			return fmt.Errorf("argument %d: truncated", a)
+		}
+		if raw[p2+l] != '\r' || raw[p2+l+1] != '\n' {
+			return fmt.Errorf("argument %d: payload is terminated by %q instead of CRLF", a, raw[p2+l:p2+l+2])
+		}
+		pos = p2 + l + 2
+	}
+	if pos != len(raw) {
+		return fmt.Errorf("%d trailing bytes", len(raw)-pos)
+	}
+	return nil
+}
